@@ -129,6 +129,43 @@ func cliExitDiscipline(c *Ctx, rule string) {
 		}
 		return false
 	}
+	// a failure helper of package cli: it writes a diagnostic to stderr on every path and all its
+	// returns are one non-zero constant (`return failWritingJSON(reason)` is then a diagnostic plus
+	// that status)
+	failHelper := func(v ssa.Value) (int64, bool) {
+		hc, ok := v.(*ssa.Call)
+		if !ok {
+			return 0, false
+		}
+		h := hc.Call.StaticCallee()
+		if h == nil || h.Pkg != run.Pkg || h.Signature.Results().Len() != 1 || len(h.Blocks) == 0 {
+			return 0, false
+		}
+		var status int64
+		hrets := returnsOf(h)
+		for i, r := range hrets {
+			k, isC := constInt(effectiveResults(r)[0])
+			if !isC || k == 0 || i > 0 && k != status {
+				return 0, false
+			}
+			status = k
+		}
+		for _, call := range callsIn(h) {
+			if !isStderrWrite(call) {
+				continue
+			}
+			all := len(hrets) > 0
+			for _, r := range hrets {
+				if !(call.Block() == r.Block() || call.Block().Dominates(r.Block())) {
+					all = false
+				}
+			}
+			if all {
+				return status, true
+			}
+		}
+		return 0, false
+	}
 	type src struct {
 		call *ssa.Call
 		err  ssa.Value
@@ -184,12 +221,16 @@ func cliExitDiscipline(c *Ctx, rule string) {
 			}
 			failRets++
 			k, isC := constInt(effectiveResults(r)[0])
+			hk, viaHelper := failHelper(effectiveResults(r)[0])
+			if viaHelper {
+				k, isC = hk, true
+			}
 			if !isC || k == 0 {
 				good = false
 				why = append(why, "returns "+p.Render(effectiveResults(r)[0])+" at "+p.InstrPos(r))
 			}
 			// a stderr write under the same fact that precedes the return
-			wrote := false
+			wrote := viaHelper
 			for _, call := range callsIn(run) {
 				if isStderrWrite(call) && F.At(call.Block()).KnownNonNil(s.err) && (call.Block() == r.Block() || call.Block().Dominates(r.Block())) {
 					wrote = true
@@ -209,6 +250,9 @@ func cliExitDiscipline(c *Ctx, rule string) {
 	// return 0 only with all dominating sources nil
 	for _, r := range rets {
 		k, isC := constInt(effectiveResults(r)[0])
+		if hk, viaHelper := failHelper(effectiveResults(r)[0]); viaHelper {
+			k, isC = hk, true
+		}
 		if !isC {
 			c.violated(rule, "exit-status-constant "+describeExit(p, r), p.InstrPos(r), "Run returns a non-constant exit status")
 			continue
